@@ -557,7 +557,11 @@ def e2e_session(ctx, ci, cname, cinfo, mi, mname, minfo, sizes, compression, res
         recs = list(tc.packetizer.records)
         rx = None
         zdec = None
-        for seq, r in enumerate(recs):
+        strict = bool(getattr(tc, "agreed_on_strict_kex", False))
+        first_keyed = next((i for i, r in enumerate(recs) if r["keyed"]), None)
+        for idx, r in enumerate(recs):
+            # strict KEX (OpenSSH PROTOCOL 1.10): the sequence number restarts at 0 after NEWKEYS
+            seq = idx - first_keyed if (strict and first_keyed is not None and idx >= first_keyed) else idx
             raw, wire, framed = r["raw"], r["wire"], r["framed"]
             case = dict(case0, seq=seq, msg_type=raw[0] if raw else None, payload_len=len(raw))
             if not r["keyed"]:
@@ -1038,6 +1042,41 @@ def run_switch_drive(ctx, only=None):
     return results
 
 
+def run_two_objects_drive(ctx, only=None):
+    """TWO LIVE Packetizers with different suites in one process (state that is per instance must stay so): the
+    first is used again after the second was configured and used."""
+    from paramiko.packet import Packetizer
+    modes = switch_modes()
+    pairs = [(a, b) for a in range(len(modes)) for b in range(len(modes)) if a != b]
+    if not ctx.thorough and only is None:
+        pairs = [pq for k, pq in enumerate(pairs) if (k + ctx.seed) % 3 == 0]
+    if only is not None:
+        pairs = [tuple(only)]
+    results = []
+    for a, b in pairs:
+        objs = []
+        for m in (a, b):
+            sink = Sink()
+            p = Packetizer(sink)
+            objs.append([p, sink, None, modes[m], 0])
+        plan = [(0, "install", None), (0, "send", [1, modes[a]["bs"]]), (1, "install", None),
+                (1, "send", [1, modes[b]["bs"]]), (0, "send", list(range(1, modes[a]["bs"] + 9))),
+                (1, "send", list(range(1, modes[b]["bs"] + 9)))]
+        for who, what, lens in plan:
+            o = objs[who]
+            if what == "install":
+                o[2] = toy_install(o[0], o[3])
+                continue
+            for n in lens:
+                summ, case, flen = toy_one(ctx, o[3], o[0], o[1], o[2], n, o[4],
+                                           case_extra={"drive": "two-objects", "pair": [a, b], "object": who})
+                o[4] += 1
+                ctx.count(("two", a, b, who, o[4], n), nontrivial=True, kind="two-objects-" + mode_name(o[3]))
+                if summ is not None:
+                    results.append((toy_input(o[3], n, flen), summ, dict(case, payload_len=n, framed_len=flen)))
+    return results
+
+
 def mode_name(cfg):
     return "clear" if not cfg["enc"] else ("etm" if cfg["etm"] else ("aead" if cfg["aead"] else "classic"))
 
@@ -1103,7 +1142,12 @@ def run(ctx):
                 "Key switches on the SAME Packetizer: toy drive = all ordered pairs of six framing modes plus seeded "
                 "sequences of 3-5 switches; table drive = every session re-keys once to a suite of another class "
                 "(second real _activate_outbound on the same Transport), and the algorithms of the opposite "
-                "direction (remote_cipher / remote_mac) always differ from the outbound ones. "
+                "direction (remote_cipher / remote_mac) always differ from the outbound ones.  Two live Packetizers "
+                "with different suites, the first used again after the second.  END TO END: two real Transports "
+                "negotiate (SecurityOptions restricted to one cipher/MAC/compression; every pair of the tables each "
+                "run, a seed-rotated subset compared with the model in the quick tier) and the client's wire bytes "
+                "are received independently (own RFC 4253 7.2 key derivation).  Every table entry is compared with an "
+                "independent reference of what its NAME means (RFC 4253 6.3/6.4, 4344, 5647, 6668, OpenSSH PROTOCOL). "
                 "Every case is a distinct (configuration, length) and non-trivial (a packet is built, written, "
                 "decrypted and parsed).")
     ctx.trusted += ["gen/c03.py AST translator (fail-closed) and the wrappers in coq/Model/C03.v",
@@ -1124,6 +1168,7 @@ def run(ctx):
         builds = []
         toy = run_toy_drive(ctx, table_bs, builds=builds)
         toy += run_switch_drive(ctx)
+        toy += run_two_objects_drive(ctx)
         table = []
         for ci, (cname, cinfo) in enumerate(ciphers):
             for mi, (mname, minfo) in enumerate(macs):
@@ -1138,17 +1183,25 @@ def run(ctx):
         # END TO END through the public entry points: every MAC (and a seed-rotated cipher) each quick run, every
         # pair in the thorough tier
         e2e = []
-        pairs = ([(ci, mi) for ci in range(len(ciphers)) for mi in range(len(macs))] if ctx.thorough else
-                 [((3 * mi + ctx.seed) % len(ciphers), mi) for mi in range(len(macs))]
-                 + [(ci, (ci + ctx.seed) % len(macs)) for ci in range(len(ciphers))])
-        for k, (ci, mi) in enumerate(dict.fromkeys(pairs)):
+        pairs = [(ci, mi) for ci in range(len(ciphers)) for mi in range(len(macs))]
+        # every pair goes through the oracle in both tiers (30 ms each); the quick tier compares a seed-rotated
+        # subset (every MAC, every cipher) with the model
+        to_model = set(pairs) if ctx.thorough else set(
+            [((3 * mi + ctx.seed) % len(ciphers), mi) for mi in range(len(macs))]
+            + [(ci, (ci + ctx.seed) % len(macs)) for ci in range(len(ciphers))])
+        e2e_all = 0
+        for k, (ci, mi) in enumerate(pairs):
             bs = ciphers[ci][1]["block-size"]
             sizes = list(range(0, bs + 8)) + [ctx.rng.randrange(100, 3000)]
+            res = []
             e2e_session(ctx, ci, ciphers[ci][0], ciphers[ci][1], mi, macs[mi][0], macs[mi][1], sizes,
-                        "zlib" if (k + ctx.seed) % 4 == 0 else "none", e2e)
+                        "zlib" if (k + ctx.seed) % 4 == 0 else "none", res)
+            e2e_all += len(res)
+            if (ci, mi) in to_model:
+                e2e += res
     ctx.exhaustive = True
-    ctx.log("toy drive: %d packets; table drive: %d packets over %d suites; end-to-end: %d packets" % (
-        len(toy), len(table), len(ciphers) * len(macs), len(e2e)))
+    ctx.log("toy drive: %d packets; table drive: %d packets over %d suites; end-to-end: %d packets "
+            "(%d to the model)" % (len(toy), len(table), len(ciphers) * len(macs), e2e_all, len(e2e)))
     compare(ctx, "run_build", "((bool * bool * bool * bool) * Z * Z)", builds, "_build_packet")
     compare(ctx, "run_toy", "((bool * bool * bool * bool) * (Z * Z * Z * Z) * (Z * Z))", toy, "toy drive")
     if not ctx.thorough:
@@ -1195,6 +1248,17 @@ def replay(ctx, rep):
         elif case.get("drive") == "switch":
             res = run_switch_drive(ctx, only=list(case["sequence"]))
             compare(ctx, "run_toy", "((bool * bool * bool * bool) * (Z * Z * Z * Z) * (Z * Z))", res, "key switches")
+        elif case.get("drive") == "two-objects":
+            res = run_two_objects_drive(ctx, only=list(case["pair"]))
+            compare(ctx, "run_toy", "((bool * bool * bool * bool) * (Z * Z * Z * Z) * (Z * Z))", res, "two objects")
+        elif case.get("drive") == "e2e":
+            res = []
+            for ci, (cname, cinfo) in enumerate(ciphers):
+                for mi, (mname, minfo) in enumerate(macs):
+                    if cname == case["cipher"] and mname == case["mac"]:
+                        e2e_session(ctx, ci, cname, cinfo, mi, mname, minfo,
+                                    list(range(0, cinfo["block-size"] + 8)), case.get("compression", "none"), res)
+            compare(ctx, "run_table", "(Z * Z * (Z * Z))", res, "end-to-end drive")
         elif case.get("drive") == "table":
             res = []
             ses = case.get("session") or {"cipher": case["cipher"], "mac": case["mac"]}
